@@ -146,6 +146,8 @@ MUTANTS = [
     M("lw10-no-expr", "visitors/array_constraint_builder.py", "ArrayConstraintBuilder.visit_expr_array_sum", "self._expr = s", "pass", ["C01", "C02"], "LW10"),
     M("ft10-no-truncate", "model/field_array_model.py", "FieldArrayModel.post_randomize", "del self.field_l[int(self.size.get_val()):]", "pass", ["C04"], "FT10"),
     M("cv16-store-raw", "model/wildcard_binspec.py", "WildcardBinspec.__init__", "self.specs.append((s[0] & s[1], s[1]))", "self.specs.append((s[0], s[1]))", ["C19"], "CV16"),
+    M("bd5-later-upper", "model/variable_bound_in_propagator.py", "VariableBoundInPropagator.propagate", "max(in_r_l[-1][1], in_r_l_t[i][1])", "in_r_l_t[i][1]", ["C14"], "BD5"),
+    M("bd5-compact", "model/rangelist_model.py", "RangelistModel.compact", "max(self.range_l[i][1], self.range_l[i + 1][1])", "self.range_l[i + 1][1]", ["C10"], "BD5"),
 ]
 
 # behaviour-preserving rewrites: must stay silent for every property
